@@ -162,6 +162,7 @@ type treeStats struct {
 // pair modes of the event menu
 const (
 	pairsAll     = iota // every ordered pair of nodes (and (i,i))
+	pairsTriples        // pairsAll + every ordered triple of distinct nodes (batches of three)
 	pairsRelated        // (i,i), (parent,child), (child,parent), (grandparent,grandchild)
 	frontierOnly        // fork-pair family: per state only the frontier of each fork (next, next+1, last stored) and their pairs
 )
@@ -171,6 +172,21 @@ func eventMenu(in *instance, mode int, mask uint64) []string {
 	n := in.sh.n()
 	var evs []string
 	if mode == frontierOnly {
+		// batches of two UNRELATED acceptable headers (one per fork, both orders): the first may trigger a
+		// reorg, the second is then judged against the head as it is after the first
+		var nexts []int
+		for i := 1; i <= n; i++ {
+			if mask&(1<<uint(i)) == 0 && mask&(1<<uint(in.sh.par[i])) != 0 {
+				nexts = append(nexts, i)
+			}
+		}
+		for _, i := range nexts {
+			for _, j := range nexts {
+				if i != j {
+					evs = append(evs, "p"+itoa(i)+","+itoa(j))
+				}
+			}
+		}
 		kids := func(i int) (out []int) {
 			for j := 1; j <= n; j++ {
 				if in.sh.par[j] == i {
@@ -209,8 +225,19 @@ func eventMenu(in *instance, mode int, mask uint64) []string {
 		}
 		for i := 1; i <= n; i++ {
 			for j := 1; j <= n; j++ {
-				if mode == pairsAll || i == j || in.sh.par[j] == i || in.sh.par[i] == j || (in.sh.par[j] > 0 && in.sh.par[in.sh.par[j]] == i) {
+				if mode == pairsAll || mode == pairsTriples || i == j || in.sh.par[j] == i || in.sh.par[i] == j || (in.sh.par[j] > 0 && in.sh.par[in.sh.par[j]] == i) {
 					evs = append(evs, "p"+itoa(i)+","+itoa(j))
+				}
+			}
+		}
+	}
+	if mode == pairsTriples {
+		for i := 1; i <= n; i++ {
+			for j := 1; j <= n; j++ {
+				for k := 1; k <= n; k++ {
+					if i != j && j != k && i != k {
+						evs = append(evs, "p"+itoa(i)+","+itoa(j)+","+itoa(k))
+					}
 				}
 			}
 		}
@@ -221,13 +248,14 @@ func eventMenu(in *instance, mode int, mask uint64) []string {
 	return evs
 }
 
-func parseEv(e string) (kind byte, a, b int) {
+func parseEv(e string) (kind byte, a int, list []int) {
 	kind = e[0]
 	rest := e[1:]
 	if kind == 'p' {
-		f := strings.Split(rest, ",")
-		a, _ = strconv.Atoi(f[0])
-		b, _ = strconv.Atoi(f[1])
+		for _, f := range strings.Split(rest, ",") {
+			x, _ := strconv.Atoi(f)
+			list = append(list, x)
+		}
 		return
 	}
 	a, _ = strconv.Atoi(rest)
@@ -251,7 +279,7 @@ func explore(r *ev.Run, e *hsenv.Env, ad adapter, sim *hsenv.Sim, base polyenv.D
 	report := func(s state, path []string) {
 		for _, p := range s.probs {
 			r.Violation(tag+"/"+p.Key, map[string]any{"chain": tag, "family": fam, "tree": in.sh.String(), "events": path, "what": p.Detail,
-				"note": "tree: i<-parent:colour; events: sN single header N, pA,B batch of two, xK invalid header K"})
+				"note": "tree: i<-parent:colour; events: sN single header N, pA,B[,C] one batch, xK invalid header K"})
 		}
 	}
 	report(init, nil)
@@ -262,7 +290,7 @@ func explore(r *ev.Run, e *hsenv.Env, ad adapter, sim *hsenv.Sim, base polyenv.D
 		Key:    func(s state) string { return s.hskey },
 		Stop:   r.Expired,
 		Step: func(s state, evn string) (state, bool) {
-			kind, a, b := parseEv(evn)
+			kind, a, list := parseEv(evn)
 			var raws [][]byte
 			var nodes []int
 			expOK := true
@@ -271,7 +299,7 @@ func explore(r *ev.Run, e *hsenv.Env, ad adapter, sim *hsenv.Sim, base polyenv.D
 			case 's':
 				nodes = []int{a}
 			case 'p':
-				nodes = []int{a, b}
+				nodes = list
 			case 'x':
 				raws = [][]byte{in.bad[a]}
 				expOK = !in.badFail[a]
@@ -331,7 +359,7 @@ func explore(r *ev.Run, e *hsenv.Env, ad adapter, sim *hsenv.Sim, base polyenv.D
 					nx.class = []string{"invalid-header-ignored"}
 				case dupOnly:
 					nx.class = []string{"dup-noop"}
-				case len(nodes) == 2 && s.mask&(1<<uint(nodes[0])) == 0 && s.mask&(1<<uint(in.sh.par[nodes[0]])) != 0:
+				case len(nodes) >= 2 && s.mask&(1<<uint(nodes[0])) == 0 && s.mask&(1<<uint(in.sh.par[nodes[0]])) != 0:
 					nx.class = []string{"batch-atomic-reject"}
 				default:
 					nx.class = []string{"orphan-reject"}
@@ -382,6 +410,9 @@ func classify(prev, nx state, v view, nodes []int, in *instance) []string {
 	out := []string{"accept"}
 	if len(nodes) == 2 {
 		out = append(out, "accept-batch2")
+	}
+	if len(nodes) == 3 {
+		out = append(out, "accept-batch3")
 	}
 	last := -1
 	for _, i := range nodes {
